@@ -209,9 +209,13 @@ pub fn render(rng: &mut Rng, count: u64, emit: Emit) {
     let mut attempts = 0u64;
     while emitted < count && attempts < count * 40 + 1000 {
         attempts += 1;
-        let source = rng.below(24);
+        // the first case of every run is fixed (known finding D32): a constant whose definition fails, a constant that uses
+        // it, and constants whose names are close to it - the hint of the consequential diagnostic about the first constant
+        // is computed over the constants evaluated so far, in the order of the sort
+        let source = if attempts == 1 { 99 } else { rng.below(24) };
         // the text of the HCL file
         let (mut text, mut how): (String, String) = match source {
+            99 => (String::from("const ZED = 3;\nconst KNOB = 1 / 0;\nconst knob = ZED + 1;\nconst USES = KNOB + 1;\npc = 0;\nStat = STAT_AOK;\n"), String::from("cascade-hint")),
             0..=5 => { let (t, h) = anytext_input(rng); (t, format!("anytext-{}", h)) }
             6..=8 => { let d = diag_input(rng); (d.user, format!("diag-{}", d.kname)) }
             9 | 10 => { let (g, what, _) = faulty_program(rng, "fault"); (proggen::render_program(&g.stmts), format!("fault-{}", what)) }
@@ -247,9 +251,10 @@ pub fn render(rng: &mut Rng, count: u64, emit: Emit) {
             }
         };
         // the same text with other line ends, without its last line end, with names outside ASCII
-        if rng.chance(1, 6) && !text.contains('\r') { text = text.replace("\n", "\r\n"); how.push_str("+crlf"); }
-        if rng.chance(1, 5) { let cut = text.trim_end().len(); text.truncate(cut); how.push_str("+no-final-newline"); }
-        if rng.chance(1, 5) {
+        let fixed_case = how == "cascade-hint";
+        if !fixed_case && rng.chance(1, 6) && !text.contains('\r') { text = text.replace("\n", "\r\n"); how.push_str("+crlf"); }
+        if !fixed_case && rng.chance(1, 5) { let cut = text.trim_end().len(); text.truncate(cut); how.push_str("+no-final-newline"); }
+        if !fixed_case && rng.chance(1, 5) {
             let names = renameable(&text);
             if !names.is_empty() {
                 let from = rng.pick(&names[..]).clone();
@@ -258,7 +263,7 @@ pub fn render(rng: &mut Rng, count: u64, emit: Emit) {
                 how.push_str("+non-ascii-name");
             }
         }
-        let name: &str = if rng.chance(1, 8) { *rng.pick(&["\u{e9}.hcl", "a b.hcl", "dir.d", ""][..]) } else { "t.hcl" };
+        let name: &str = if !fixed_case && rng.chance(1, 8) { *rng.pick(&["\u{e9}.hcl", "a b.hcl", "dir.d", ""][..]) } else { "t.hcl" };
         crate::watch::note_text("render", &text);
         let contents = FileContents::new_from_data(pre, &text, name);
         // the error value
@@ -298,7 +303,7 @@ pub fn render(rng: &mut Rng, count: u64, emit: Emit) {
         // suggested names, spans - must be the same up to their order (and up to which loop is shown)
         if !how.starts_with("synthetic") && !how.starts_with("yo") && !how.starts_with("run-divide") {
             let first = canonical_errors(&hclrs::verif_hooks::error_sexp(&e));
-            for _ in 0..2 {
+            for _ in 0..(if fixed_case { 14 } else { 2 }) {
                 let again = match catch_unwind(AssertUnwindSafe(|| parse_y86_hcl(&contents))) {
                     Ok(Err(e2)) => canonical_errors(&hclrs::verif_hooks::error_sexp(&e2)),
                     Ok(Ok(_)) => vec![String::from("ACCEPTED")],
